@@ -11,9 +11,10 @@
 #define CELLS 16
 static void in_shape(u64* s, int n){ for (int i = 0; i < n; i++) s[i] = in_u64(1, MAXE); }
 static void in_data(u32* d, int n){ for (int i = 0; i < n; i++) d[i] = in_any32(); }
+static void in_prior(u32* out, u32* out0){ for (int i = 0; i < CELLS; i++) out[i] = out0[i] = in_any32(); }   /* prior content of the whole output buffer */
 static u64 norm(i32 v, u64 n){ return v < 0 ? (u64)(v + (i32)n) : (u64)v; }
 #define LOCALS u64 shape[2], os[4] = {0}; u32 data[CELLS], out[CELLS], out0[CELLS]; in_shape(shape, 2); in_data(data, MAXE*MAXE); \
-  for (int i = 0; i < CELLS; i++) out[i] = out0[i] = in_any32();   /* prior content of the whole output buffer */ \
+  in_prior(out, out0); \
   u64 n0 = shape[0], n1 = shape[1], size = n0 * n1; \
   u64 bsz = in_u64(1, 33), tid = in_u64(0, 32), bid = in_u64(0, 32); ASSUME(tid < bsz); u64 g = bid * bsz + tid;
 #define GEOM tid, bid, bsz
